@@ -33,6 +33,7 @@
 import Proofs.Peg.Vocab2
 import Proofs.Peg.Enum
 import Proofs.Peg.Det
+import Proofs.Peg.K3
 import Props.C02b
 import Props.C03b
 import Props.C11b
@@ -126,6 +127,37 @@ theorem k3_rejected :
     Gen.asciiL.lparse "a_-_b".toList = .ok (.term (.atom [] "a_-_b".toList)) :=
   ⟨referenceS_none _ (by decide +kernel) (by decide +kernel),
    referenceS_none _ (by decide +kernel) (by decide +kernel), by decide +kernel⟩
+
+/-- **K3 as a class**: a word `c v1 x - z w` — `c` a letter / number, `v1` name characters, `x` and `z`
+punctuation / symbol characters (within the property's names: `_` or `-`), this being the first place in the name
+where the grammar's copula pattern begins — has NO reading by the published grammar, although the library prints
+it as it stands. So the exclusion `noCopIn` in the hypothesis of `ascii_conforms` is necessary. -/
+theorem k3_every_such_name (c x z : Char) (v1 w : Str) (hc : lnB c = true) (hv : v1.all acB = true)
+    (hx : psB x = true) (hz : psB z = true)
+    (hfirst : ∀ s, s ≠ [] → s <:+ v1 → gcopB (s ++ x :: '-' :: z :: w) = false) :
+    ∀ val, ¬ Reads Gen.readmeGrammar (Gen.asciiL.fmtNarsese (.term (.atom [] (c :: v1 ++ x :: '-' :: z :: w)))) val := by
+  have := k3_class c x z v1 w hc hv hx hz hfirst
+  simpa [LFormat.fmtNarsese, LFormat.fmtTerm] using this
+
+/-- instance: `go_-_to` -/
+example : ∀ val, ¬ Reads Gen.readmeGrammar "go_-_to".toList val :=
+  k3_class 'g' '_' '_' ['o'] "to".toList (by decide +kernel) (by decide +kernel) (by decide +kernel) (by decide +kernel)
+    (by
+      intro s hs hsuf
+      have : s = ['o'] := by
+        rcases hsuf with ⟨u, hu⟩
+        cases s with
+        | nil => exact absurd rfl hs
+        | cons a s' =>
+          have hl := congrArg List.length hu
+          simp at hl
+          have : s' = [] := by cases s' with | nil => rfl | cons _ _ => simp at hl; omega
+          subst this
+          have : u = [] := by cases u with | nil => rfl | cons _ _ => simp at hl
+          subst this
+          simpa using hu
+      subst this
+      decide +kernel)
 
 /-! ### uniqueness: the grammar classifies the string as THIS kind and tree and no other -/
 
